@@ -126,6 +126,22 @@ def run(ctx):
     one = [n for n in sl.body if isinstance(n, ast.If) and U(n.test) == "len(instr_ports) == 1" and any(isinstance(x, ast.Break) for x in n.body)]
     ctx.check(bool(one) and one[0] is sl.body[0], "P5", "stop when only one port is left", f.where(sl),
               "the step loop no longer stops when a single port remains", f.qname, "single port stop")
+    # ---- P7 the balancing set starts as ALL ports of the micro-op
+    ctx.rule("P7", "balancing starts over every admissible port of the micro-op (ports are dropped only inside the step loop)")
+    from ..flow import Flow
+    flow = C.flow_of(f)
+    ps = P["defs"].get("port_sums")
+    first_use = ps if ps is not None else sl
+    try:
+        reach = flow.reaching(first_use, "indices")
+    except KeyError:
+        reach = []
+    vals = sorted({U(d.value) for d in reach if d.value is not None})
+    ctx.check(vals == ["[port_list.index(p) for p in ports]"], "P7", "indices = all ports of the micro-op when balancing starts",
+              f.where(first_use), "when the balancing of a micro-op starts, `indices` may already be restricted (%s): ports the "
+              "instruction currently puts no pressure on are excluded, so a later pass can never move load back onto a port that "
+              "an earlier greedy pass drained - the result stays above the optimum of the kernel" % vals, f.qname,
+              "initial balancing set")
     # ---- P6 no other writer on the optimised path
     ctx.rule("P6", "after add_semantics only the balancer changes port_pressure on the optimised path")
     insp = ctx.func("osaca.inspect")
